@@ -51,7 +51,11 @@ func zooValues() map[string]any {
 		"l": []interface{}{1, "a", nil, []interface{}{2}}, "ls": []string{"x", "y"}, "li": []int{3, 1, 2}, "lf": []float64{1.5}, "lb": []byte("bytes"),
 		"arr": [3]int{1, 2, 3}, "arr0": [0]string{}, "nl": nilSlice, "ll": [][]int{{1}, {}},
 		"m": map[string]interface{}{"a": 1, "b": []interface{}{1}}, "ms": map[string]string{"k": "v"}, "mi": map[int]string{1: "one"}, "mif": map[interface{}]interface{}{1: "a", "1": "b"},
-		"nm": nilMap, "mm": map[string]map[string]int{"x": {"y": 1}},
+		// interface-keyed maps (what YAML decoders produce) whose keys are of several kinds: whatever order the runtime hands the
+		// keys out in, ordering them compares two keys of different kinds (mifn: numeric kinds only, so no key order avoids it)
+		"mifn": map[interface{}]interface{}{1: "a", 2.5: "b", uint(3): "c", int64(7): "d", float32(0.5): "e", int8(-1): "f", uint16(9): "g"},
+		"mifm": map[interface{}]string{1: "a", "x": "b", 2.5: "c", true: "d", uint8(4): "e", "": "f", nil: "g", [2]int{1, 2}: "h", 'r': "i", zStringer{}: "j", int64(-9): "k", "10": "l", 10: "m"},
+		"nm":   nilMap, "mm": map[string]map[string]int{"x": {"y": 1}},
 		"st": zStruct{Name: "N", Tags: []string{"t"}}, "sp": &zStruct{Name: "P", Inner: &zInner{1.5}}, "np": nilPtr, "em": zEmbed{}, "emp": &zEmbed{zInner: &zInner{2}},
 		"str": zStringer{}, "fn": func() string { return "f" }, "ch": ch, "t": time.Unix(0, 0).UTC(), "pp": new(*int),
 		// long sequences (the membership test and the sort filters switch algorithm with the length), holding values
@@ -161,6 +165,7 @@ func runC05(e *Env) error {
 	r := e.Rep
 	rg := e.Rng
 	r.Rule = "(a) template sources: every generator template mutated (byte flips, deletions, duplications, truncations, splices of tag fragments) and random tag soup, parsed and rendered under panic recovery and a 10 s watchdog, the engine reused afterwards; " +
+		"(a7) size ladder 0 … 1 MiB (powers of two ± 1) × where the bytes are (one printed value, one text segment, built in the template, escaped, loops, joins, include / macro / apply / inheritance, many context keys) × render route (Engine.Render, Template.Render, RenderTo into a Write-only writer, bytes.Buffer, strings.Builder, the library Buffer, development mode), each large render repeated and followed by small renders on the same and on a fresh engine, outputs compared with the string computed in Go; " +
 		"(b) context type zoo (≈ 45 Go value shapes incl. nil pointers, typed/untyped/nil maps and slices, arrays, structs with value/pointer methods, embedded nil pointers, funcs, chans) × ≈ 70 templates applying every built-in filter, function, test, operator, loop and access form; " +
 		"(b2) every argument position of every built-in filter / function / test, right operand, index, slice bound and tag operand × literal and computed arguments (fractions below one, negative fractions, -0.0, overflowing floats, numeric strings, null, booleans, lists, maps, failing expressions) and context arguments (NaN, ±Inf, subnormals, every integer/float width, named types, pointers, the type zoo of (b)); " +
 		"(c) compiled-template decoding of random, truncated and mutated bytes with allocation measured; non-trivial = a mutated/zoo case that parses or a decode input that starts like a valid container; distinct by input"
@@ -442,6 +447,10 @@ func runC05(e *Env) error {
 				}
 			}
 		}
+	}
+	// (a7) sizes: large values / text segments / outputs through every render route, and the renders that follow (c05_sizes.go)
+	if runC05Sizes(e, report) {
+		return nil
 	}
 	// (b) zoo
 	zoo := zooValues()
